@@ -55,7 +55,7 @@ enum { P_AEAD_ENC, P_AEAD_DEC_GOOD, P_AEAD_DEC_FORGED, P_INC_ENC, P_INC_DEC, P_S
        P_HKDF, P_HKDFA, P_KDF, P_KDFA, P_PBKDF2, P_PBKDF2_HMAC, P_RANDOM, P_PRNG, P_COUNT };
 static const char *PNAME[P_COUNT] = {"aead-encrypt", "aead-decrypt-good", "aead-decrypt-forged", "aead-inc-encrypt", "aead-inc-decrypt", "siv-encrypt", "siv-decrypt-good", "siv-decrypt-forged",
     "isap-keysetup+encrypt", "isap-decrypt-good", "isap-decrypt-forged", "masked-encrypt", "masked-decrypt-good", "masked-decrypt-forged", "masked-key-init/randomize/extract",
-    "prf", "prf-short", "mac", "mac-verify-good", "mac-verify-bad", "hmac", "hmaca", "kmac", "kmaca", "hkdf", "hkdfa", "kdf", "kdfa", "pbkdf2", "pbkdf2-hmac", "ascon_random", "prng-init/fetch/feed/reseed"};
+    "prf", "prf-short", "mac", "mac-verify-good", "mac-verify-bad", "hmac", "hmaca", "kmac", "kmaca", "hkdf", "hkdfa", "kdf", "kdfa", "pbkdf2", "pbkdf2-hmac", "ascon_random", "prng-init/fetch/feed/reseed/save/load"};
 
 typedef void (*enc_fn)(unsigned char *, size_t *, const unsigned char *, size_t, const unsigned char *, size_t, const unsigned char *, const unsigned char *);
 typedef int (*dec_fn)(unsigned char *, size_t *, const unsigned char *, size_t, const unsigned char *, size_t, const unsigned char *, const unsigned char *);
@@ -64,6 +64,11 @@ static const dec_fn ADEC[3] = {ascon128_aead_decrypt, ascon128a_aead_decrypt, as
 static const enc_fn SENC[3] = {ascon128_siv_encrypt, ascon128a_siv_encrypt, ascon80pq_siv_encrypt};
 static const dec_fn SDEC[3] = {ascon128_siv_decrypt, ascon128a_siv_decrypt, ascon80pq_siv_decrypt};
 static const size_t KEYLEN[3] = {16, 16, 20};
+
+// storage callbacks for the PRNG seed: plain copies, no decision taken on the (secret) bytes
+static uint8_t *g_region;
+static int ct_read(const ascon_storage_t *, size_t offset, unsigned char *data, size_t size) { if (offset + size > 64) return -1; memcpy(data, g_region + offset, size); return (int)size; }
+static int ct_write(const ascon_storage_t *, size_t offset, const unsigned char *data, size_t size, int) { if (offset + size > 64) return -1; if (data) memcpy(g_region + offset, data, size); return (int)size; }
 
 static rc::Gen<KV> gen_ct() {
     auto blk = [](size_t rate) { return rc::gen::weightedOneOf<size_t>({{3, rc::gen::element<size_t>(0, 1, rate - 1, rate, rate + 1, 2 * rate, 2 * rate + 3, 5 * rate)}, {2, rc::gen::map(inRangeFull(0, (int)(5 * rate) + 1), [](int v) { return (size_t)v; })}}); };
@@ -196,6 +201,16 @@ static std::string check_ct(const KV &c) {
             ascon_random_feed(&st, m.p, m.n);
             ascon_random_reseed(&st);
             ascon_random_fetch(&st, o2.p, 20);
+            // seed persistence: the saved seed is generator output / state, i.e. secret; the storage region holds secret bytes
+            Sec region(sl(all, 60, 64));
+            g_region = region.p;
+            ascon_storage_t sg;
+            memset(&sg, 0, sizeof sg);
+            sg.page_size = 1; sg.erase_size = (pos & 1) ? 32 : 0; sg.size = 64; sg.read = ct_read; sg.write = ct_write;
+            if (pos & 2) { rc = ascon_random_load_seed(&st, &sg); rc += ascon_random_save_seed(&st, &sg); }
+            else { rc = ascon_random_save_seed(&st, &sg); rc += ascon_random_load_seed(&st, &sg); }
+            ascon_random_fetch(&st, o2.p, 20);
+            g_region = nullptr;
             ascon_random_free(&st);
             o.declass(); o2.declass();
             break; }
